@@ -210,7 +210,7 @@ func runListener(c *mon.Case, sp spec) {
 			finishSocket(c, ctx, srv, cli, tr)
 			return
 		}
-		c.Violate("setup:"+ctx, "NewListener(%s): %v", addr, err)
+		c.Inconclusive("setup "+ctx+": NewListener(%s): %v", addr, err)
 		return
 	}
 	if tr == "vt" && sp.Err == "inuse" {
@@ -225,7 +225,7 @@ func runListener(c *mon.Case, sp spec) {
 	case "twice":
 		if e, ok := call(c, ctx, "Listen#1", 0, l.Listen); !ok || e != nil {
 			if ok {
-				c.Violate("setup:"+ctx, "first Listen failed: %v", e)
+				c.Inconclusive("setup "+ctx+": first Listen failed: %v", e)
 			}
 			return
 		}
@@ -311,7 +311,7 @@ func runListener(c *mon.Case, sp spec) {
 		} else {
 			d, e := cli.NewDialer(l.Address(), dopts(tr))
 			if e != nil {
-				c.Violate("setup:"+ctx, "NewDialer: %v", e)
+				c.Inconclusive("setup "+ctx+": NewDialer: %v", e)
 				return
 			}
 			if e, ok := call(c, ctx, "peer.Dial", 0, d.Dial); !ok || e != nil {
@@ -487,7 +487,7 @@ func runDialer(c *mon.Case, sp spec) {
 	}
 	d, err = cli.NewDialer(addr, do)
 	if err != nil {
-		c.Violate("setup:"+ctx, "NewDialer(%s): %v", addr, err)
+		c.Inconclusive("setup "+ctx+": NewDialer(%s): %v", addr, err)
 		return
 	}
 	wantErr := true
@@ -495,7 +495,7 @@ func runDialer(c *mon.Case, sp spec) {
 	case "twice":
 		if e, ok := call(c, ctx, "Dial#1", maxT, d.Dial); !ok || e != nil {
 			if ok {
-				c.Violate("setup:"+ctx, "first Dial failed: %v", e)
+				c.Inconclusive("setup "+ctx+": first Dial failed: %v", e)
 			}
 			return
 		}
@@ -731,7 +731,7 @@ func runQlen0(c *mon.Case, sp spec) {
 	}
 	ws := hx.WatchPipes(s)
 	if _, _, err := hx.Connect(s, peer, "inproc"); err != nil {
-		c.Violate("setup:"+ctx, "connect: %v", err)
+		c.Inconclusive("setup "+ctx+": connect: %v", err)
 		return
 	}
 	if !hx.WaitAttached(c, ws, 1, "peer") {
@@ -804,7 +804,7 @@ func runReject(c *mon.Case, sp spec) {
 		return
 	}
 	if _, e, _ := k.Result(); e != nil {
-		c.Violate("setup:"+ctx, "connect: %v", e)
+		c.Inconclusive("setup "+ctx+": connect: %v", e)
 		return
 	}
 	if !c.AwaitOrViolate("not-carrying-on:"+ctx, ctx+": a later connection attaching on both sides after two rejected ones", func() bool { mu.Lock(); defer mu.Unlock(); return attached >= 1 && rejects == 0 }, mon.AwaitOpts{MaxTimer: 5 * time.Millisecond, Ignore: []string{"internal/core.(*dialer)"}}) {
@@ -829,7 +829,7 @@ func runReject(c *mon.Case, sp spec) {
 func runBadPeer(c *mon.Case, ctx, tr string, srv, cli mangos.Socket, l mangos.Listener, ws *hx.PipeWatch) {
 	if e, ok := call(c, ctx, "Listen", 0, l.Listen); !ok || e != nil {
 		if ok {
-			c.Violate("setup:"+ctx, "Listen: %v", e)
+			c.Inconclusive("setup "+ctx+": Listen: %v", e)
 		}
 		return
 	}
@@ -867,7 +867,7 @@ func runBadPeer(c *mon.Case, ctx, tr string, srv, cli mangos.Socket, l mangos.Li
 	}
 	d, e := cli.NewDialer(addr, dopts(tr))
 	if e != nil {
-		c.Violate("setup:"+ctx, "NewDialer: %v", e)
+		c.Inconclusive("setup "+ctx+": NewDialer: %v", e)
 		return
 	}
 	if e, ok := call(c, ctx, "peer.Dial", 0, d.Dial); !ok || e != nil {
